@@ -196,3 +196,47 @@ func VerifC12Expiry() {
 	vCoverIf(t == exp, "read-exactly-at-expiration")
 	vCoverIf(t == exp-1, "read-one-millisecond-before-expiration")
 }
+
+// C12 re-registration: b.a.com is registered with a short symbolic lifetime, a symbolic time span passes
+// (it may or may not have expired), the owner of a.com optionally adds a record for x.b.a.com (stored under
+// b.a.com while that is alive, under a.com once it has expired), then b.a.com is registered again.
+// Registration must succeed exactly when isAvailable said so in the same instant: refused while the name is
+// alive, and refused while the enclosing name holds a record of one of its sub-names.
+func VerifC12ReRegister() {
+	vDeploy("nns", []any{[]any{"com", "ops@nspcc.io"}})
+	o1 := vAcct("o1")
+	vSign(o1, true)
+	ok, r := vInvoke("nns", "register", "a.com", o1, "e@nspcc.io", 1, 2, 10000000, 3)
+	vAssume(ok && r.(bool))
+	life := vInt("lifetimeSeconds")
+	vAssume(life >= 1 && life <= 1000)
+	vSign(o1, true)
+	ok, r = vInvoke("nns", "register", "b.a.com", o1, "e@nspcc.io", 1, 2, life, 3)
+	vAssume(ok && r.(bool))
+	exp := vTime() + life*1000
+	dt := vInt("milliseconds")
+	vAssume(dt >= 1 && dt <= 1100000)
+	vAdvanceTime(dt)
+	withSub := vBool("recordForASubNameAdded")
+	underEnclosing := false
+	if withSub {
+		// added while b.a.com is alive the record belongs to b.a.com itself; only once b.a.com has expired is
+		// it stored under a.com (the expiry can fall in the millisecond between this and the next transaction)
+		underEnclosing = vTime()+1 >= exp
+		vAssume(asOwner(o1, "addRecord", "x.b.a.com", typeTXT, "sub"))
+	}
+	t := vTime() + 1 // the instant of the read and of the next transaction
+	okAv, av := vRead("nns", "isAvailable", "b.a.com")
+	vSign(o1, true)
+	okReg, rr := vInvoke("nns", "register", "b.a.com", o1, "e@nspcc.io", 1, 2, 1000, 3)
+	registered := okReg && rr.(bool)
+	vAssert(okAv || !registered, "C12/registration-agrees-with-isAvailable")
+	if okAv {
+		vAssert(registered == av.(bool), "C12/registration-agrees-with-isAvailable")
+	}
+	vAssert(!registered || t >= exp, "C12/a-live-name-cannot-be-registered-again")
+	vAssert(!(registered && underEnclosing), "C12/registration-refused-while-the-enclosing-name-holds-records-of-sub-names")
+	vCoverIf(registered, "expired-name-registered-again")
+	vCoverIf(!registered && underEnclosing, "re-registration-refused-for-a-conflicting-record")
+	vCoverIf(registered && withSub, "record-added-in-the-last-millisecond-of-the-name-does-not-conflict")
+}
